@@ -1,10 +1,10 @@
 #!/bin/bash
 # seed_collect.sh <Cxx> [tier] — evaluate the sub-agent's seeds for a property and store confirmed ones under /verif/seeded
 ID="$1"; TIER="${2:-quick}"
-for s in /tmp/seedwork/wt-$ID/.seed/*/ /tmp/seedwork/wt-$ID/.seed2/*/ /tmp/seedwork/wt-$ID/.seed3/*/ /tmp/seedwork/wt-$ID/.seed4/*/ /tmp/seedwork/wt-$ID/.seed5/*/ /tmp/seedwork/wt-$ID/.seed6/*/ /tmp/seedwork/wt-$ID/.seed7/*/ /tmp/seedwork/wt-$ID/.seed8/*/; do
+for s in /tmp/seedwork/wt-$ID/.seed/*/ /tmp/seedwork/wt-$ID/.seed2/*/ /tmp/seedwork/wt-$ID/.seed3/*/ /tmp/seedwork/wt-$ID/.seed4/*/ /tmp/seedwork/wt-$ID/.seed5/*/ /tmp/seedwork/wt-$ID/.seed6/*/ /tmp/seedwork/wt-$ID/.seed7/*/ /tmp/seedwork/wt-$ID/.seed8/*/ /tmp/seedwork/wt-$ID/.seed9/*/; do
   [ -f "$s/patch.diff" ] || continue
   i=$(basename "$s")
-  case "$s" in */.seed2/*) i=$((i+2));; */.seed3/*) i=$((i+4));; */.seed4/*) i=$((i+6));; */.seed5/*) i=$((i+8));; */.seed6/*) i=$((i+10));; */.seed7/*) i=$((i+12));; */.seed8/*) i=$((i+14));; esac
+  case "$s" in */.seed2/*) i=$((i+2));; */.seed3/*) i=$((i+4));; */.seed4/*) i=$((i+6));; */.seed5/*) i=$((i+8));; */.seed6/*) i=$((i+10));; */.seed7/*) i=$((i+12));; */.seed8/*) i=$((i+14));; */.seed9/*) i=$((i+16));; esac
   if [ -n "${ONLY:-}" ] && [ "$ONLY" != "$i" ]; then continue; fi
   res=$(/verif/selftest/seed_eval.sh "$s" "$ID" "$TIER" | head -1)
   echo "$res"
